@@ -130,11 +130,14 @@ def cone_of(vfile_rel):
         if not os.path.exists(path):
             continue
         txt = open(path, encoding="utf-8").read()
-        for m in re.finditer(r"From\s+MP\s+Require\s+(?:Import|Export)?\s*([^.]*(?:\.[A-Za-z_][A-Za-z0-9_]*)*)\s*\.\s", txt):
+        txt = re.sub(r"\(\*.*?\*\)", "", txt, flags=re.S)
+        for m in re.finditer(r"(?:From\s+MP\s+)?Require\s+(?:Import\s+|Export\s+)?(.*?)\.(?=\s|$)", txt, flags=re.S):
             for mod in m.group(1).split():
+                if mod.startswith("MP."):
+                    mod = mod[3:]
                 rel = "theories/" + mod.replace(".", "/") + ".v"
                 todo.append(rel)
-    return seen
+    return [f for f in seen if os.path.exists(os.path.join(COQ, f))]
 
 
 def scan_forbidden(files):
